@@ -438,3 +438,35 @@ def g7_cli(pkg: Package, res: Resolver, col: Collector, clause: str = "S1",
                    f.module.relname, f.line, sample=dict(command=cmd, dest=r_))
     col.count("g7_commands", ncmd)
     return ncmd
+
+
+def g5_super_init(pkg: Package, res: Resolver, funcs, col: Collector, clause: str = "S1"):
+    """Constructor delegation: a subclass `__init__` that accepts an option its base `__init__` also has must pass it
+    on (or consume it itself); leaving the base formal to its default silently drops the option."""
+    n = 0
+    for f in funcs:
+        if f.name != "__init__" or f.cls is None:
+            continue
+        own = {p.name for p in f.params}
+        used = {}
+        for x in own_nodes(f.node):
+            if isinstance(x, ast.Name) and isinstance(x.ctx, ast.Load):
+                used[x.id] = used.get(x.id, 0) + 1
+        for c in own_calls(f.node):
+            if not (isinstance(c.func, ast.Attribute) and c.func.attr == "__init__"):
+                continue
+            r = res.resolve_call(c, f)
+            if not r or not r[0]:
+                continue
+            for callee in r[0]:
+                b = bind_args(c, callee, r[1])
+                n += 1
+                where = f"{f.module.relname}::{f.qualname}"
+                dropped = [p.name for p in b.defaulted if p.name in own and not used.get(p.name)]
+                col.ob("G5", clause, f"{where}::super().__init__-forwards-shared-options", not dropped,
+                       f"{f.cls.name}.__init__ accepts {dropped} but leaves the same-named formal(s) of "
+                       f"{callee.qualname} to their defaults and never reads them: the option is silently dropped",
+                       f.module.relname, c.lineno, sample=[(p.name, ast.unparse(a)) for p, a, _ in b.pairs][:6],
+                       nontrivial=False)
+    col.count("g5_super_init_sites", n)
+    return n
